@@ -69,6 +69,14 @@ F_KIND = {
     "pf_linkarg": "{{{{#ifeq:a|a|[[Tg|{i}]]|{{{{tf|n}}}}}}}} t",
     "pf_intmpl": "{{{{tf|{{{{#if:c|{i}}}}}}}}}",
     "pf_ml": "{{{{#if:c\n|{i}\n|{{{{lc:N}}}}\n}}}}",
+    # NOT in the catalogue: quote markup spanning lines ("''a\nb''").  Quote markup is line-scoped in wikitext (the
+    # tokenizer resets its state per line), so each line of such a block carries an unclosed '' -- not balanced.
+    # balanced HTML blocks whose end tag has white space before its '>' (legal; '</x\s*>' is the parser's own token)
+    "et_div_nl": "<div>{i}</div\n>",
+    "et_div_sp": "<div>{i}</div >",
+    "et_divml_nl": "<div class=\"d\">\n{i} t\n</div\n>",
+    "et_span_nl": "<span>{i}</span\n> t",
+    "et_b_tab": "<b>{i}</b\t> t",
 }
 F_KINDS = sorted(F_KIND)
 H_DECOS = sorted(H_DECO)
